@@ -63,6 +63,14 @@ def main():
                 break
     finally:
         ex.close()
+    scan_info = None
+    if prop == 'C16' and not engine_error:
+        import engine
+        import statescan
+        P = engine.load_program(build['mir'], build['src'], cache_dir=build['dir'])
+        scan_info = statescan.scan(P, open(build['mir']).read())
+        for f in scan_info['findings']:
+            allv.append({'prop': 'C16', 'role': 'state/%s:%s' % (f['kind'], f.get('item', ','.join(f.get('functions', [])))), 'detail': json.dumps(f), 'trace': [], 'witness': {'input': json.dumps(f), 'agree': True, 'note': 'static call-graph finding on the MIR'}})
     wall = time.time() - t0
     # ---- triage
     by_role = collections.OrderedDict()
@@ -115,6 +123,9 @@ def main():
     }
     if engine_error:
         ev['coverage']['engine_error'] = engine_error[:4000]
+    if scan_info is not None:
+        ev['coverage']['static_state_scan'] = {k: v for k, v in scan_info.items() if k != 'reachable'}
+        ev['coverage']['static_state_scan']['reachable_sample'] = scan_info['reachable'][:10]
     runner.write_evidence(prop, ev)
     # ---- report
     print('property=%s tier=%s paths=%d hook_paths=%d obligations=%d queries=%d solver=%.1fs tv=%d wall=%.1fs' % (prop, tier, paths, ev['coverage']['paths_with_hook'], ev['coverage']['obligations'], ev['coverage']['solver_queries'], ev['coverage']['solver_time_s'], ev['coverage']['traces_validated_against_impl'], wall))
